@@ -824,6 +824,46 @@ func (g *gen) concurrent() Input {
 	return in
 }
 
+// sameGroup: batches handed in at the same time that report the SAME group (two bindings of a hook, or two hooks, in
+// different queues).  A batch replaces its group's series as a whole: whatever the interleaving, the group must show
+// the series of ONE of the batches afterwards (P_case: the registry after SOME order of the round).  The batches are long
+// (12-24 series each) so that the calls really overlap; an optional short history reports the group before.
+func (g *gen) sameGroup() Input {
+	in, sch := g.historySch(0, false, true)
+	sch[7] = &schema{kind: 1 + g.r.Intn(2), grouped: true}
+	grp := 1 + g.r.Intn(3)
+	nT := 2
+	if g.r.Chance(30) {
+		nT = 3
+	}
+	oneHook := g.r.Chance(35)
+	mk := func(hook, n, off int) Batch {
+		bt := Batch{Hook: hook}
+		for k := 0; k < n; k++ {
+			o := Op{Group: grp, Name: 7, Labels: [][2]int{{1, off + k}, {11, 10 + grp}}}
+			g.fill(&o, sch[7])
+			bt.Ops = append(bt.Ops, o)
+		}
+		return bt
+	}
+	if g.r.Chance(50) {
+		in.Batches = append(in.Batches, mk(1, 1+g.r.Intn(3), 50))
+	}
+	for t := 0; t < nT; t++ {
+		hook := 1 + t%2
+		if oneHook {
+			hook = 1
+		}
+		off := 1
+		if g.r.Chance(50) {
+			off = 1 + 30*t // the batches name different series
+		}
+		in.Round = append(in.Round, mk(hook, 12+g.r.Intn(13), off))
+	}
+	in.Sched = []int{g.r.Intn(12), 0, 0, 0, g.r.Intn(12), g.r.Intn(12)} // all goroutines started at once (no staggered start)
+	return in
+}
+
 // fill gives the operation its action and value according to the name's schema
 func (g *gen) fill(o *Op, s *schema) {
 	v := g.value(s.kind, true)
@@ -977,6 +1017,9 @@ func Gen(r *core.Rng, tier string) ([]core.In[Input], bool) {
 	case "search":
 		n, maxB = 3200, 6
 	}
+	for i := 0; i < n/10; i++ {
+		ins = append(ins, core.In[Input]{Input: g.sameGroup(), Stream: "same-group"})
+	}
 	for i := 0; i < n; i++ {
 		nb := 1 + g.r.Intn(maxB)
 		switch {
@@ -995,6 +1038,6 @@ func Gen(r *core.Rng, tier string) ([]core.In[Input], bool) {
 
 var Driver = core.Driver[Input, Observation]{
 	Spec: core.Spec{Property: "C16", Imports: []string{"C16_Model", "C16_Spec", "C16_Corr"}, Corr: "C16_Corr", Triggers: []string{"F5a"}, ShrinkKey: "batches",
-		Rule: "histories of metric batches written as hooks write them (JSON lines, parsed by the real operation package) sent to a real MetricStorage with its own registry, Gather() canonicalised after every batch; 2 hooks, 3 groups, 6 metric names with a per-history schema (kind, grouped or not, ungrouped label names, buckets), varying label shapes with empty values for grouped metrics, integer and dyadic values, add/set shortcut fields, explicit expire, 15% of batches with one invalid operation; streams: corpus, schedules (the corpus rounds under every choice list of a small scope), random (groups never share (name, labels)), trigger (they may: F5a), informational (out-of-domain, never judged); the implementation's observations are judged against the model run with EVERY order of the batch's groups (Go map iteration); non-trivial = judged, >= 2 accepted batches, grouped operations, some group reported again in a later batch; stream concurrent (every 4th): a history, then a ROUND of 2-3 batches handed in at the same time by one goroutine each (groups pairwise different between goroutines; grouped set/add on the same new metric name from several goroutines, on different new names, on names the history knows, explicit expire, some ungrouped operations - mostly on one new ungrouped name -, 10% with an invalid operation; one hook or several), the interleaving steered through a prometheus.Registerer wrapper (a Register call is held until another goroutine is inside Register too, or all others are parked or have returned, or 3 ms have passed; who registers first, start order and staggered start are choices from the input's sched list); then 0-2 batches one after the other again (reporting groups and new names of the round again); compared only after all goroutines have returned: failure flags, and Gather() judged against the model with the round's batches as atomic steps in EVERY order, P_case = the reference registry after SOME order; non-trivial there = judged and >= 2 accepted batches of the round with grouped set/add; distinct = distinct input term (history and round)"},
+		Rule: "histories of metric batches written as hooks write them (JSON lines, parsed by the real operation package) sent to a real MetricStorage with its own registry, Gather() canonicalised after every batch; 2 hooks, 3 groups, 6 metric names with a per-history schema (kind, grouped or not, ungrouped label names, buckets), varying label shapes with empty values for grouped metrics, integer and dyadic values, add/set shortcut fields, explicit expire, 15% of batches with one invalid operation; streams: corpus, schedules (the corpus rounds under every choice list of a small scope), random (groups never share (name, labels)), trigger (they may: F5a), informational (out-of-domain, never judged); the implementation's observations are judged against the model run with EVERY order of the batch's groups (Go map iteration); non-trivial = judged, >= 2 accepted batches, grouped operations, some group reported again in a later batch; stream concurrent (every 4th): a history, then a ROUND of 2-3 batches handed in at the same time by one goroutine each (groups pairwise different between goroutines; grouped set/add on the same new metric name from several goroutines, on different new names, on names the history knows, explicit expire, some ungrouped operations - mostly on one new ungrouped name -, 10% with an invalid operation; one hook or several), the interleaving steered through a prometheus.Registerer wrapper (a Register call is held until another goroutine is inside Register too, or all others are parked or have returned, or 3 ms have passed; who registers first, start order and staggered start are choices from the input's sched list); then 0-2 batches one after the other again (reporting groups and new names of the round again); compared only after all goroutines have returned: failure flags, and Gather() judged against the model with the round's batches as atomic steps in EVERY order, P_case = the reference registry after SOME order; non-trivial there = judged and >= 2 accepted batches of the round with grouped set/add; distinct = distinct input term (history and round); stream same-group (a tenth of the random cases): 2-3 long batches (12-24 series each) handed in at the same time for the SAME group by one hook or two, all goroutines started at once - whatever the interleaving the group must show the series of ONE of them (F36, repaired)"},
 	Gen: Gen, Run: Run, Render: Render, PerShard: 700, Workers: 8, CaseTimout: 30 * time.Second,
 }
